@@ -36,7 +36,7 @@ seeded changes and which check catches which in §11.
   invariants, ghost state, lemmas. One contract set, several back ends, strongest first:
   1. **Verus** (unbounded, deductive) on function text **extracted mechanically from `/repo/src` on every run**,
      rewritten only by a fixed, logged list of token-level rules (§2.2), with contracts merged in from side-car files in
-     `/verif/contracts/`. 22 units, ≈ 80 extracted items (functions, closures, types), ≈ 440 verified functions and lemmas (Verus's "verified"
+     `/verif/contracts/`. 22 units, ≈ 80 extracted items (functions, closures, types), ≈ 560 verified functions and lemmas (Verus's "verified"
      count) carrying ≈ 890 contract clauses, 1–13 s per unit.
   2. **Kani, loop-free / full domain** (complete): `ch_width(c) <= c.len_utf8()` for every `char`, both feature sets (K1); the float-exactness facts C05's one-line argument uses, for every pair of `usize` operands (K3).
   3. **Kani, bounded**: `wrap_first_fit` with bit-precise IEEE-754 floats, 3 fragments (K2, thorough tier of C07) — labelled *bounded*.
@@ -111,6 +111,7 @@ w("""## 2. Architecture
   tools/kx.py  kani/     Kani driver (scratch copy outside /repo and /verif) and harnesses K1, K2, K3
   tools/props.py         per property: units, Kani harnesses, level, proved / bounded parts, trusted base
   tools/seedtest.py      applies seeded/<id>/patch.diff to /repo, runs the checks, undoes it -> seeded/RESULTS.json; seedreport.py -> RESULTS.md
+  tools/seedpar.py       the same in parallel on scratch copies outside /repo and /verif (never touches /repo); --harmless: every check on each behaviour-preserving edit
   tools/seedimport.sh, seedverify.sh   import a sub-agent's change as seeded/<id>/ and confirm it (suite passes, demo fails only with the patch);  seedverus.py  Verus-only sweep
   tools/kfexpect.py      records the failing-input sets of the open known findings (known_findings.json `expected_sets`; by hand, unchanged tree)
   tools/harmless.py      behaviour-preserving refactors must not raise violations;  tools/stability.py  SMT-seed sweep
@@ -214,7 +215,7 @@ restatement and callee would show up there within scope.
 
 | consumer (restated) | provider (proved) | relation |
 |---|---|---|
-| U11 `vx_find_words`: words tile the line, cached widths correct | U13 `vx_collect_ascii_words`, U20 `vx_collect_unicode_words` | same clauses (providers prove more); `Custom` separator: A15 |
+| U11 `vx_find_words`: words tile the line, cached widths correct | U13 `find_words` (the dispatcher) + `vx_collect_ascii_words`, U20 `vx_collect_unicode_words` | same clauses (providers prove more); `Custom` separator: A15 |
 | U11 `vx_split_words`: tiling kept, cached widths correct | U14 `vx_split_words_collect` | same clauses |
 | U11 `break_words` (requires cached widths correct): tiling kept | U6 `break_words` | same clause, same precondition |
 | U6 `vx_vec_extend_break_apart` (requires non-empty text) | U15 `vx_break_apart_collect` | same clauses (pieces non-empty, each a sub-slice `is_sub` of the word's text) |
@@ -376,7 +377,7 @@ technique does not apply (relational over two calls of `fill`; no contract withi
 through its bounded executable contract, labelled bounded. `not_applicable` in MANIFEST is empty because every property
 has a check; a reader who counts only deductive results should read C14 as not applicable. Reasons for every bounded remainder are the
 measured ones of §1: Kani cannot finish `find_words` / `wrap` on a 3-byte string or a 3-fragment optimal-fit; optimality needs real arithmetic;
-relational properties need a functional specification (done for `wrap` in U11, which gives C09 and C08; `fill`'s idempotence and the
+relational properties need a functional specification (done for `wrap` in U11, which gives C09 and C08, and for `dedent` / `indent` in U9 / U8, which gives C18's two corollaries; `fill`'s idempotence and the
 unfill/refill round trips would need the inverse direction as well); Verus has no float theory.
 Creusot, Prusti and Aeneas are not installed; nothing here depends on them.
 
@@ -411,8 +412,8 @@ repairs before they were committed.
   or a rename could not be followed because it came with such a restructuring) until the side-car is re-anchored (`vx.py derive` after adjusting the names); the bounded
   contracts of the same property still ran and passed on the refactored code, and every property whose units do not touch the
   refactored function still exits 0. An *undecided* is reported as such — never as a violation, never as a pass.
-* **SMT-seed stability** (`tools/stability.py`): all 22 units verify under Z3 random seeds 1–8 (largest per-function rlimit counts: 30 M for U5 and 27 M for U11, which run with
-  `//@rlimit 20`, as do U13 and U24; every other unit stays below 11 M under the default limit). U1 was restructured around an opaque state predicate with step
+* **SMT-seed stability** (`tools/stability.py`): all 22 units verify under Z3 random seeds 1–8 (largest per-function rlimit counts: 46 M for U11, which runs with `//@rlimit 30`, 33 M for U14 and 30 M for U5, which run with
+  `//@rlimit 20`, as do U13 and U24; every other unit stays below 15 M under the default limit of 30 M). U1 was restructured around an opaque state predicate with step
   lemmas after it failed under two seeds; a U11 lemma was split in three, U24's fill loop (126 M → 6 M) and U13's collecting loop (which diverged under
   seed 5) were rebuilt around opaque predicates with step lemmas for the same reason.
 * **Seeded property-breaking changes**: §11.
@@ -445,6 +446,7 @@ w("""## 9. Departures from the original plan
 | C02 BEC | indent wider than the width + zero-width rest with a break opportunity | **code violates the letter of C02** | known finding KF1 (§5), class-tagged |
 | C15/C16 BEC | round trip fails with `break_words` on and an indent-only first line | **code violates C15/C16** | repair tried, upstream test pins the behaviour, reverted; known findings KF2/KF3 (§5) |
 | C18 BEC (sampled long-string pass) | `dedent` not idempotent on `"a\\r\\r\\n b"` | **code violates the corollary stated in C18** | known finding KF4 (§5), class-tagged |
+| C18 BEC (prefixes `"\\n"`, `" \\n "` added after a review of the hypothesis `!p.contains('\\n')` of `c18_dedent_of_indent`) | `dedent(indent("a", "\\n")) == "\\na"`, not `dedent("a")` | **code violates the letter of C18's second corollary** | known finding KF8 (§5), class-tagged and set-pinned; the theorem is stated for prefixes without `'\\n'` |
 | C02 BEC (broad alphabet + OSC title with a space) | a line `indent ++ "\\r\\x1b]0;a"` too wide although it holds "more than one non-zero-width character" | check wrong: it counted the characters hidden inside the (cut-off) sequence as visible; the part after the indent has one visible character, C02's exception | visible characters are counted the way C10 defines the display width, also for sequences that are cut short |
 | C20 BEC (the opener of an unterminated OSC sequence added to the column alphabet, when the width theorem's hypothesis was written down) | a row whose cell leaves a sequence open is narrower than gaps + columns + remainder | **code violates the letter of C20's second sentence** | known finding KF7 (§5), class-tagged and set-pinned; the theorem is stated for texts that do not end inside a sequence |
 | C05, C14 BEC (broad alphabet with an OSC title containing a space and a hyperlink with a hyphenated URL) | a fitting paragraph with such a sequence is returned as two lines; `fill` is then not idempotent | **code violates the letter of C05 / C14** | known findings KF5, KF6 (§5), one class tag |
@@ -531,6 +533,19 @@ def _serves(uid):
     return ', '.join(sorted(ps))
 _txt = '\n'.join(out)
 _txt = re.sub(r'^(  \| ([UK]\d+) \|.*\| )[^|]*\|$', lambda m: m.group(1) + _serves(m.group(2)) + ' |', _txt, flags=re.M)
+# counts quoted in the text must agree with the campaign files (generation fails on a stale number)
+import os as _os
+_sd = [d for d in _os.listdir('/verif/seeded') if _os.path.isdir(_os.path.join('/verif/seeded', d))]
+_res = json.load(open('/verif/seeded/RESULTS.json')); _ver = json.load(open('/verif/seeded/VERUS.json'))
+_pairs = sum(len(v['breaks']) for v in _res.values())
+_caught = sum(1 for v in _res.values() for p in v['breaks'] if v['checks'][p]['exit'] == 1)
+_valone = sum(1 for v in _ver.values() if any(isinstance(r, dict) and r.get('status') == 'violation' for r in v.values()))
+_units = len([f for f in _os.listdir('/verif/contracts') if re.match(r'u\d+_.*\.vrs$', f)])
+for _needle in (f'{len(_sd)} seeded property-breaking changes', f'`seeded/` holds {len(_sd)} changes', f'fixes and {len(_sd) - 5} produced by independent',
+                f'5 reverted fixes + {len(_sd) - 5} from independent', f'(last: {_caught} of\n{_pairs} (change, property) pairs', f'rejects {_valone} of the {len(_sd)} changes'):
+    assert _needle in _txt, 'stale count in DESIGN text: expected ' + repr(_needle)
+assert set(_res) == set(_sd) == set(_ver), 'campaign files and seeded/ disagree'
+assert _caught == _pairs, 'a seeded change is not reported'
 out = _txt.split('\n')
 open('/verif/DESIGN.md','w').write('\n'.join(out))
 print(len('\n'.join(out).split('\n')),'lines')
